@@ -56,6 +56,8 @@ def spec(tier, seed):
          "run": lambda f, v, w: _mir.vc_rollback_direction(f, v, w, r"^test_apply_with_fuzzes$", "c04d3")},
         {"name": "diagnostics::test_apply_after_reverting_other: undo in the recorded direction", "function": "diagnostics::test_apply_after_reverting_other", "target": "bin",
          "run": lambda f, v, w: _mir.vc_rollback_direction(f, v, w, r"^test_apply_after_reverting_other$", "c04d4")},
+        {"name": "apply_modify (rollback mode): each hunk is undone through the view of the fuzz level recorded for it", "function": "TextFilePatch::apply_modify", "target": "lib",
+         "run": lambda f, v, w: _mir.vc_rollback_view_recorded(f, v, w)},
         {"name": "ModifiedFiles::rollback: undo starts at final_filename; a rename is undone into target_filename", "function": "ModifiedFiles::rollback", "target": "bin",
          "run": lambda f, v, w: _mir.vc_rename_undo_target(f, v, w)},
         {"name": "ModifiedFiles::rollback: a rename undo restores the renamed-over file", "function": "ModifiedFiles::rollback", "target": "bin",
